@@ -382,6 +382,13 @@ def _one(item):
             s2 = hs.Sim(tb=tb, attrs=[hs.Op(name="second")])
             inps = hs.to_proto([s, s2])
             sims = [(attrs, "Tb"), ([("op", "second")], "Tb")]
+        elif listing == "interleaved":
+            # two Sims sharing a testbench, with one on another testbench between them: results keep the order given
+            tb2 = mk_tb(h, hs, "ok", "Tb2")
+            s2 = hs.Sim(tb=tb2, attrs=[hs.Op(name="second")])
+            s3 = hs.Sim(tb=tb, attrs=[hs.Op(name="third"), hs.Op(name="fourth")])
+            inps = hs.to_proto([s, s2, s3])
+            sims = [(attrs, "Tb"), ([("op", "second")], "Tb2"), ([("op", "third"), ("op", "fourth")], "Tb")]
         else:
             tb2 = mk_tb(h, hs, "ok", "Tb2")
             s2 = hs.Sim(tb=tb2, attrs=[hs.Op(name="second")])
@@ -430,7 +437,7 @@ def run(ctx):
     items = []
     for k, attrs in enumerate(sc):
         for style in ("ctor", "add", "methods", "class"):
-            for listing in ("single", "shared", "distinct"):
+            for listing in ("single", "shared", "distinct", "interleaved"):
                 items.append((attrs, style, listing))
     res = ctx.pmap(_one, items, chunk=20)
     for it, r in zip(items, res):
